@@ -335,18 +335,24 @@ class JSONPointer:
             uri_decode=False,
         )
 
+    def _tokens(self) -> Tuple[str, ...]:
+        # RFC 6901 reference tokens are strings. `parts` holds an int for tokens
+        # that look like array indices, but only if they were parsed from a
+        # pointer string, so compare pointers by their tokens.
+        return tuple(str(part) for part in self.parts)
+
     def is_relative_to(self, other: JSONPointer) -> bool:
         """Return _True_ if this pointer points to a child of _other_."""
         return (
             len(other.parts) < len(self.parts)
-            and self.parts[: len(other.parts)] == other.parts
+            and self._tokens()[: len(other.parts)] == other._tokens()
         )
 
     def __eq__(self, other: object) -> bool:
-        return isinstance(other, JSONPointer) and self.parts == other.parts
+        return isinstance(other, JSONPointer) and self._tokens() == other._tokens()
 
     def __hash__(self) -> int:
-        return hash(self.parts)
+        return hash(self._tokens())
 
     def __repr__(self) -> str:
         return f"JSONPointer({self._s!r})"
